@@ -193,7 +193,19 @@ func (sc *specCtx) eval(e Expr) Val {
 		if e.Forall {
 			q = "forall"
 		}
-		return boolVal(fmt.Sprintf("(%s (%s) %s)", q, strings.Join(binders, " "), body.T))
+		bt := body.T
+		if len(e.Triggers) > 0 {
+			var pats []string
+			for _, tr := range e.Triggers {
+				var ts []string
+				for _, x := range tr {
+					ts = append(ts, n.eval(x).T)
+				}
+				pats = append(pats, ":pattern ("+strings.Join(ts, " ")+")")
+			}
+			bt = fmt.Sprintf("(! %s %s)", bt, strings.Join(pats, " "))
+		}
+		return boolVal(fmt.Sprintf("(%s (%s) %s)", q, strings.Join(binders, " "), bt))
 	case *CallE:
 		return sc.evalCall(e)
 	}
@@ -597,6 +609,9 @@ func (sc *specCtx) evalCall(e *CallE) Val {
 	case "unboxInt":
 		a := args(1)
 		return intVal(app("unbox_Int", a[0].T))
+	case "unboxBool":
+		a := args(1)
+		return boolVal(app("unbox_Bool", a[0].T))
 	case "fresh":
 		a := args(1)
 		if sc.old == nil {
